@@ -628,6 +628,20 @@ class excerpt_is_self_contained:
         return False
 
 
+def signature_kinds_in_force(score, cell):
+    """kinds of signatures (clef, key signature, meter, meter symbol) written above the cell on its own spine path"""
+    kinds = set()
+    pos = cell.parent
+    while pos is not None:
+        c = [x for x in score.rows[pos[0]].cells if x.col == pos[1]][0]
+        t = c.text
+        for k, prefix in (('clef', '*clef'), ('key', '*k['), ('met', '*met'), ('time', '*M')):
+            if t.startswith(prefix) and not t.startswith('*MM') and not (k == 'time' and t.startswith('*met')):
+                kinds.add(k)
+        pos = getattr(c, 'parent', None)
+    return kinds
+
+
 def rng_spines(g):
     return g.choice('spines', [2, 2, 3])
 
@@ -648,7 +662,11 @@ class excerpt_between_signature_changes:
         first = starts[a - 1]
         last = (starts[b] - 1) if b < len(starts) else len(score.rows) - 1
         inside = [ri for ri, r in enumerate(score.rows) if r.kind == 'interp' and first <= ri <= last and ri > starts[0]]
-        return len(score.rows[first].cells) == len(score.headers) and not inside
+        if len(score.rows[first].cells) != len(score.headers) or inside:
+            return False
+        # the spines have signatures of the same kinds in force at the start of the excerpt (a clef written in one sub-spine only
+        # leaves the spines with different sets: known finding 'unequal signature sets', see excerpt_known_classes)
+        return len({frozenset(signature_kinds_in_force(score, c)) for c in score.rows[first].cells}) == 1
 
     def post_well_formed_and_reimports(score, a, b):
         return excerpt_is_self_contained.post_well_formed_and_reimports(score, a, b)
@@ -662,7 +680,20 @@ class excerpt_known_classes:
     """Known findings (C08, named by the property): an excerpt that starts inside a split repeats the split row and its
     signature rows have the wrong width; a signature changed in the middle of the score."""
     def inputs(g):
-        return {'case': g.choice('case', ['starts-inside-split', 'change-inside-null-spine'])}
+        return {'case': g.choice('case', ['starts-inside-split', 'change-inside-null-spine', 'unequal-signature-sets'])}
+
+    def post_unequal_signature_sets(case):
+        # a clef written in one sub-spine only: after the join that spine has three kinds of signatures in force, the other one two;
+        # the recovered header is built row by row for all spines at once and refuses spines with different numbers of rows
+        if case != 'unequal-signature-sets':
+            return True
+        text = '**kern\t**kern\n*k[f#]\t*k[f#]\n*M4/4\t*M4/4\n*^\t*\n*clefF4\t*\t*\n4GG\t4g\t4c\n*v\t*v\t*\n=2\t=2\n4G\t4d\n*-\t*-\n'
+        doc, _ = kp.loads(text)
+        try:
+            ex = kp.dumps(doc, from_measure=2, to_measure=2, spine_types=['**kern'])
+        except Exception:
+            return False
+        return walk_grid(ex)[0]
 
     def post_change_inside_excerpt(case):
         # a spine that holds only null tokens from the start of the excerpt to a clef change inside it: the clef in force is taken
